@@ -142,6 +142,28 @@ def run(ctx):
             pre = pre_of(order, s)
             full.append(P.two_runs(fam, p, p, items, s, "Equal", feed_b=lambda d_, x, t, pre=pre: d_.update(pre(x, t)), pre_b=pre,
                                    restrict=lambda nums: nums, extra={"order": order}))
+    # the reference handed over AGAIN in mid-history (a periodic re-arming with the training set): verbatim in one run, with its rows in another order in
+    # the other - a reference is a multiset both times
+    for fam in ("KdqTreeBatch", "HDDDM", "NNDVI"):
+        for i in range(6 if q else 24):
+            p = P.default_params(fam, rng)
+            if fam == "HDDDM":
+                p["detect_batch"] = 3
+            items = P.gen_items(fam, rng, rng.randint(7, 10))
+            s = rng.randrange(10 ** 6)
+            again = sorted(rng.sample(range(2, len(items)), 2))
+            pre = pre_of(("perm", "asc", "desc")[i % 3], s)
+            ident = lambda x, t: np.array(x, dtype=float)
+
+            def feeder(pr, again=again, ref=items[0]):
+                def f(d, x, t):
+                    if t in again:
+                        d.set_reference(pr(ref, 1000 + t))
+                    d.update(pr(x, t))
+                return f
+            t = P.two_runs(fam, p, p, items, s, "Equal", feed_a=feeder(ident), feed_b=feeder(pre), pre_b=pre,
+                           restrict=(lambda nums: nums) if fam != "NNDVI" else None, extra={"order": "again:%s:%s" % (("perm", "asc", "desc")[i % 3], ",".join(map(str, again)))})
+            full.append(t)
     # loosely typed containers (object arrays / object frames / nested lists of Python ints and floats): what a row IS does not depend on which row leads
     for fam in ("HDDDM", "CDBD", "KdqTreeBatch"):
         for i in range(3 if q else 12):
@@ -175,6 +197,25 @@ def replay(ctx, bundle):
         pa, pb = dup_index_frame("orig", r["seed"]), dup_index_frame("perm", r["seed"])
         t = P.two_runs(r["fam"], r["pa"], r["pa"], r["items"], r["seed"], "Equal", feed_a=lambda d, x, tt: d.update(pa(x, tt)), pre_a=pa,
                        feed_b=lambda d, x, tt: d.update(pb(x, tt)), pre_b=pb)
+        if r["fam"] == "NNDVI":
+            for e in t["ev"]:
+                e["a"]["tag"] = e["b"]["tag"] = ""
+        ctx.validate("Product", [t], "replay", replay=lambda i: r)
+        return ctx.finish()
+    if r.get("order", "").startswith("again:"):
+        _, order, pos = r["order"].split(":")
+        again = [int(v) for v in pos.split(",")]
+        pre = pre_of(order, r["seed"])
+        ident = lambda x, t: np.array(x, dtype=float)
+
+        def feeder(pr):
+            def f(d, x, t):
+                if t in again:
+                    d.set_reference(pr(r["items"][0], 1000 + t))
+                d.update(pr(x, t))
+            return f
+        t = P.two_runs(r["fam"], r["pa"], r["pa"], r["items"], r["seed"], "Equal", feed_a=feeder(ident), feed_b=feeder(pre), pre_b=pre,
+                       restrict=(lambda nums: nums) if r["fam"] != "NNDVI" else None)
         if r["fam"] == "NNDVI":
             for e in t["ev"]:
                 e["a"]["tag"] = e["b"]["tag"] = ""
